@@ -1016,11 +1016,13 @@ func fitsReservation(podRequest corev1.ResourceList, rInfo *frameworkext.Reserva
 			used = *resource.NewQuantity(0, resource.DecimalSI)
 		} else {
 			used = used.DeepCopy()
-			if len(preemptibleInRR) > 0 {
-				preemptible, found := preemptibleInRR[resourceName]
-				if found {
-					used.Sub(preemptible)
-				}
+		}
+		// the preemptible amount also carries (as a negative amount) what nominated pods already claim, so it has to
+		// count whether or not the ledger has an entry for the resource yet
+		if len(preemptibleInRR) > 0 {
+			preemptible, found := preemptibleInRR[resourceName]
+			if found {
+				used.Sub(preemptible)
 			}
 		}
 		if used.Sign() < 0 { // keep allocated >= 0
